@@ -359,7 +359,7 @@ func simplifyOptions(t Case, sig string) Case {
 
 func main() {
 	seed := flag.Uint64("seed", 1, "seed")
-	n := flag.Int("n", 4000, "number of generated documents")
+	n := flag.Int("n", 30000, "number of generated documents (quick budget: 30000)")
 	out := flag.String("out", "", "output directory")
 	tier := flag.String("tier", "quick", "quick|thorough")
 	witness := flag.String("witness", "", "evaluate exactly the case in this JSON file")
@@ -367,7 +367,7 @@ func main() {
 	workers := flag.Int("workers", 16, "goroutines")
 	dump := flag.Int("dump", -1, "debug: print the generated input of this case index to stderr and exit")
 	flag.Parse()
-	debug.SetGCPercent(800) // the oracle is allocation-bound; trade memory for wall time
+	debug.SetGCPercent(400) // the oracle is allocation-bound; trade memory for wall time
 	if *out == "" {
 		fmt.Fprintln(os.Stderr, "htmloracle: -out DIR required")
 		os.Exit(2)
